@@ -345,7 +345,8 @@ impl Div for Value {
     type Output = Result<Value, EvalError>;
 
     fn div(self, rhs: Self) -> Self::Output {
-        match (self, rhs) {
+        // text that holds an integer divides a duration like that integer (as in `*`)
+        match (self, int_text(rhs)) {
             (Value::Duration(ld), Value::Int(ri)) => i32::try_from(ri)
                 .ok()
                 .and_then(|divisor| ld.checked_div(divisor))
